@@ -26,7 +26,7 @@ PRELUDE = ['let strf = func (x) => "s";', "let intf = func (x) => x + 1;", "let 
            "let lstf = func (x) => [x, x];", 'let sv = "x12";', "let iv = 7;", "let tv = {a = 1};", "let lv = [1, 2];",
            'let rec = {s = "x12", n = 3, l = ["b", 2], f = func (x) => x};']
 NESTINGS = ["top", "tuple_field", "list_elem", "call_arg", "select_arm", "func_body", "template_expr", "module_body", "module_out",
-            "module_result", "field_func_body", "map_callback", "map_tuple_callback", "filter_callback", "reduce_callback"]
+            "module_result", "field_func_body", "same_name_before", "map_callback", "map_tuple_callback", "filter_callback", "reduce_callback"]
 SYNTAX = [("=", ""), (";", ""), ("(", ""), (")", ""), ("{", ""), ("}", ")"), ("=", "=="), (",", ";")]
 
 
@@ -115,6 +115,12 @@ def fault_statements(kind, nesting, tag):
                 "let bad%s = m%s{};" % (tag, tag)], 0, 2
     if nesting == "func_body":
         return ["let g%s = func (x) => [x, %s];" % (tag, F), "let keep%s = 1;" % tag, "let bad%s = g%s(1);" % (tag, tag)], 0, 2
+    if nesting == "same_name_before":
+        # the statement before the faulty one refers to the same name as the faulty operand, and to nothing else
+        m = re.search(r"\b(sv|iv|tv|lv|rec|strf|intf|tupf|lstf)\b", F)
+        if m:
+            return ["let pre%s = %s;" % (tag, m.group(1)), "let bad%s = %s;" % (tag, F)], 1, None
+        return ["let bad%s = %s;" % (tag, F)], 0, None
     if nesting == "field_func_body":
         # the faulty function is stored in a tuple field and called through a selector two statements later
         return ["let h%s = {k = 1, f = func (x) => [x, %s]};" % (tag, F), "let keep%s = 1;" % tag, "let bad%s = h%s.f(1);" % (tag, tag)], 0, 2
